@@ -233,7 +233,7 @@ Section FileOps.
     | _ =>
         match hd_node f with
         | None => inl (RFail closed_err)
-        | Some c => if node_is_dir h c then inr (hd_name f)
+        | Some c => if node_is_dir h c then inr (abs (v_os v) (v_cwd v) (hd_name f))
                     else inl (RFail (if isw then EW_DirNameInvalid else EC_NotADirectory))
         end
     end.
